@@ -103,6 +103,43 @@ def judge(c, progs, source):
                    {"program": progs[i], "unoptimised": o_raw, "optimised": o_opt, "source": source}, finding_key=key)
 
 
+def obs_of(r):
+    return (E.canon_obs(r["out"], r["res"]) + (cbcount(r),)) if "tree" in r else ("PARSE", r.get("parse_error", "")[:80])
+
+
+def rewrite_conversions(p):
+    import re
+    return "def cv_int(x) { int(x) }; def cv_long(x) { long(x) }; def cv_double(x) { double(x) }; def cv_float(x) { float(x) }; def cv_size_t(x) { size_t(x) }; " + \
+           re.sub(r"\b(int|long|double|float|size_t)\(", lambda m: "cv_" + m.group(1) + "(", p)
+
+
+def still_differs(variants):
+    """batch predicate for the shrinker: optimised and unoptimised runs differ, and not merely through the known conversion fold"""
+    ps = [v[0] for v in variants]
+    raw = E.run_impl(ps, "raw", ["shape"])
+    opt = E.run_impl(ps, "opt", ["shape"])
+    rw = E.run_impl([rewrite_conversions(p) for p in ps], "opt", ["shape"])
+    return [obs_of(a) != obs_of(b) and obs_of(c) != obs_of(a) and "tree" in a and "tree" in b for a, b, c in zip(raw, opt, rw)]
+
+
+def shrink_failures(c):
+    import shrink
+    for f in c.failures[:1]:
+        case = f["case"]
+        if "program" not in case or "unoptimised" not in case:
+            continue
+        try:
+            small = shrink.shrink([case["program"]], still_differs)[0]
+        except Exception as ex:      # shrinking is a convenience: never let it hide the failure
+            case["shrink_error"] = str(ex)[:200]
+            continue
+        if small != case["program"] and len(small) < len(case["program"]):
+            case["original_program"] = case["program"]
+            case["program"] = small
+            r, o = E.run_impl([small], "raw", ["shape"])[0], E.run_impl([small], "opt", ["shape"])[0]
+            case["unoptimised"], case["optimised"] = obs_of(r), obs_of(o)
+
+
 def cbcount(d):
     s = d.get("shape", "")
     return s.split(" CBCOUNT ")[1].split(" ")[0] if " CBCOUNT " in s else ""
@@ -135,6 +172,7 @@ def check(tier, seed):
     c.dist.update({"construct:" + k: v for k, v in st.items()})
     for k in (0, len(progs) // 2):
         c.sample({"program": progs[k][:600]})
+    shrink_failures(c)
     return c.finish()
 
 
